@@ -333,3 +333,39 @@ func (p *Prog) instrPos(in ssa.Instruction) string {
 	}
 	return "-"
 }
+
+// compositeIntKeys evaluates a map composite literal with constant integer keys; values are rendered as
+// their constant string value when constant, otherwise as source text positions are not needed.
+func compositeIntKeys(pk *packages.Package, e ast.Expr, out map[int64]string) map[int64]string {
+	cl, ok := e.(*ast.CompositeLit)
+	if !ok {
+		return nil
+	}
+	for _, el := range cl.Elts {
+		kv, ok := el.(*ast.KeyValueExpr)
+		if !ok {
+			return nil
+		}
+		k := pk.TypesInfo.Types[kv.Key]
+		if k.Value == nil {
+			return nil
+		}
+		ki, _ := constant.Int64Val(constant.ToInt(k.Value))
+		v := pk.TypesInfo.Types[kv.Value]
+		if v.Value != nil {
+			out[ki] = v.Value.ExactString()
+		} else {
+			var sb strings.Builder
+			ast.Inspect(kv.Value, func(n ast.Node) bool {
+				if id, ok := n.(*ast.Ident); ok {
+					sb.WriteString(id.Name + " ")
+				}
+				return true
+			})
+			out[ki] = sb.String()
+		}
+	}
+	return out
+}
+
+func astInspectKV(e ast.Expr, f func(k, v interface{ Pos() token.Pos })) {}
